@@ -126,7 +126,7 @@ fn enumerate(ty: Ty, size: usize, depth: usize, memo: &mut Memo) -> Vec<String> 
           for sc in &scruts {
             for n in &nones {
               for so in &somes {
-                out.push(format!("match {sc} {{ None -> {n}, Some(v{depth}) -> {so} }}"));
+                out.push(format!("(match {sc} {{ None -> {n}, Some(v{depth}) -> {so} }})"));
               }
             }
           }
@@ -145,7 +145,7 @@ fn enumerate(ty: Ty, size: usize, depth: usize, memo: &mut Memo) -> Vec<String> 
           for c in &conds {
             for t in &thens {
               for e in &elses {
-                out.push(format!("if {c} {{ {t} }} else {{ {e} }}"));
+                out.push(format!("(if {c} {{ {t} }} else {{ {e} }})"));
               }
             }
           }
